@@ -79,28 +79,31 @@ func (v *Version) Compare(other *Version) int {
 	}
 
 	for i := 0; i < maxLen; i++ {
-		var elem1, elem2 element
-
-		// Get element or use "null" element if past end
-		if i < len(v.elements) {
-			elem1 = v.elements[i]
-		} else {
-			elem1 = element{value: 0, isNumber: true} // null element
+		var cmp int
+		switch {
+		case i >= len(v.elements):
+			// past the end of v: the other element is compared with the "null" element
+			cmp = -compareWithNull(other.elements[i])
+		case i >= len(other.elements):
+			cmp = compareWithNull(v.elements[i])
+		default:
+			cmp = compareElements(v.elements[i], other.elements[i])
 		}
-
-		if i < len(other.elements) {
-			elem2 = other.elements[i]
-		} else {
-			elem2 = element{value: 0, isNumber: true} // null element
-		}
-
-		cmp := compareElements(elem1, elem2)
 		if cmp != 0 {
 			return cmp
 		}
 	}
 
 	return 0 // versions are equal
+}
+
+// compareWithNull compares an element with a missing one, as Maven does: a number against 0,
+// a qualifier against the release qualifier "" (so 1-sp > 1 > 1-rc, and 1-foo > 1)
+func compareWithNull(e element) int {
+	if e.isNumber {
+		return compareElements(e, element{value: 0, isNumber: true})
+	}
+	return compareElements(e, element{value: "", isNumber: false})
 }
 
 func compareElements(e1, e2 element) int {
@@ -117,32 +120,11 @@ func compareElements(e1, e2 element) int {
 		return 0
 	}
 
-	// If one is number and other is string, number comes first (unless string is empty/release)
+	// A number is newer than any qualifier
 	if e1.isNumber && !e2.isNumber {
-		s2 := e2.value.(string)
-		if s2 == "" {
-			// number vs empty string: empty string (release) is greater
-			return -1
-		}
-		if s2 == "sp" {
-			// number vs sp: sp is greater
-			return -1
-		}
-		// number vs other qualifier: number is greater
 		return 1
 	}
-
 	if !e1.isNumber && e2.isNumber {
-		s1 := e1.value.(string)
-		if s1 == "" {
-			// empty string (release) vs number: empty string is greater
-			return 1
-		}
-		if s1 == "sp" {
-			// sp vs number: sp is greater
-			return 1
-		}
-		// other qualifier vs number: number is greater
 		return -1
 	}
 
